@@ -365,6 +365,16 @@ def playback(scratch, h, res):
     dev and release profiles.  Returns (reproduced: bool|None, saved replay path, detail)."""
     spec = BUILDS[h.build]
     cdir = os.path.normpath(os.path.join(scratch.src, spec["dir"]))
+    if not h.playback:
+        # model-level builds (slice / agentshim): the counterexample is over the environment model;
+        # there is no faithful native playback, the failed checks and the query are what is saved
+        rdir = os.path.join(VERIF, "replays")
+        os.makedirs(rdir, exist_ok=True)
+        rpath = os.path.join(rdir, "%s.replay.txt" % h.name.split("::")[-1])
+        detail = "model-level counterexample (the query uses stubs/models that a native playback cannot apply: %s; re-run: bin/check <ID> --only %s)" % ("; ".join(x.split(" -> ")[0] for x in h.stubs)[:200], h.name.split("::")[-1])
+        with open(rpath, "w") as f:
+            f.write("\n".join(["harness: " + h.name, "build: " + h.build, "bounds: " + h.bounds, "failed checks:"] + ["  " + d for d in res["failed_descriptions"]] + ["", detail]) + "\n")
+        return None, rpath, detail
     r2 = run_kani(scratch, h, extra=["-Z", "concrete-playback", "--concrete-playback=print"],
                   timeout=h.timeout * 2, logname=h.name.replace("::", "__") + ".playback")
     log = open(r2["log"], errors="replace").read()
